@@ -34,7 +34,7 @@ example : OddEdge2 (htPhi ⟨1/2, 1/3⟩) := htPhi_odd _
 
 /-- **Additivity over a triangulation** (edge cancellation): the half-turn sum round the polygon
 is the sum over the triangles of the half-turn sums round each of them. -/
-theorem winding_additive {vs : List (P2 ℝ)} {Ts : List (Tri2 ℝ)} (p : P2 ℝ)
+theorem winding2_additive {vs : List (P2 ℝ)} {Ts : List (Tri2 ℝ)} (p : P2 ℝ)
     (h : EdgeChainEq2 (edges vs) (Ts.flatMap Tri2.bdry)) :
     halfTurnSum vs p =
       (Ts.map fun t => halfTurn p t.a t.b + halfTurn p t.b t.c + halfTurn p t.c t.a).sum := by
@@ -55,7 +55,7 @@ theorem unitSquare_chain : EdgeChainEq2 (edges unitSquare) (unitSquareTs.flatMap
 
 example (p : P2 ℝ) : halfTurnSum unitSquare p =
     (unitSquareTs.map fun t => halfTurn p t.a t.b + halfTurn p t.b t.c + halfTurn p t.c t.a).sum :=
-  winding_additive p unitSquare_chain
+  winding2_additive p unitSquare_chain
 
 /-- **Reversal.** Reversing the vertex order negates the half-turn sum. -/
 theorem winding_reverse (vs : List (P2 ℝ)) (p : P2 ℝ) :
@@ -213,7 +213,7 @@ theorem halfTurnSum_triangulated {vs : List (P2 ℝ)} {Ts : List (Tri2 ℝ)} {p 
     (hpos : ∀ t ∈ Ts, 0 < orient t.a t.b t.c)
     (hoff : ∀ t ∈ Ts, onBoundary t p = false) :
     halfTurnSum vs p = 2 * (count Ts p : Int) := by
-  rw [winding_additive p hchain, ← sum_ite_count]
+  rw [winding2_additive p hchain, ← sum_ite_count]
   congr 1
   exact List.map_congr_left fun t ht => winding_triangle t p (hpos t ht) (hoff t ht)
 
@@ -223,7 +223,7 @@ theorem halfTurnSum_triangulated_neg {vs : List (P2 ℝ)} {Ts : List (Tri2 ℝ)}
     (hneg : ∀ t ∈ Ts, orient t.a t.b t.c < 0)
     (hoff : ∀ t ∈ Ts, onBoundary t p = false) :
     halfTurnSum vs p = -2 * (count Ts p : Int) := by
-  rw [winding_additive p hchain, ← sum_ite_count]
+  rw [winding2_additive p hchain, ← sum_ite_count]
   congr 1
   exact List.map_congr_left fun t ht => winding_triangle_neg t p (hneg t ht) (hoff t ht)
 
@@ -974,7 +974,7 @@ theorem polygon_on_edge_ccw {vs : List (P2 ℝ)} {Ts : List (Tri2 ℝ)} {a b c p
     (hoff : ∀ t ∈ Ts, onBoundary t p = false) :
     halfTurnSum vs p = 1 + 2 * (count Ts p : Int) ∧ isInsideRot vs p = inRegion Ts p := by
   have hs : halfTurnSum vs p = 1 + 2 * (count Ts p : Int) := by
-    rw [winding_additive p hchain, List.map_cons, List.sum_cons, triangle_on_edge_sum hpos0 hcol hin,
+    rw [winding2_additive p hchain, List.map_cons, List.sum_cons, triangle_on_edge_sum hpos0 hcol hin,
       ← sum_ite_count]
     congr 2
     exact List.map_congr_left fun t ht => winding_triangle t p (hpos t ht) (hoff t ht)
@@ -993,7 +993,7 @@ theorem polygon_on_edge_cw {vs : List (P2 ℝ)} {Ts : List (Tri2 ℝ)} {a b c p 
     (hoff : ∀ t ∈ Ts, onBoundary t p = false) :
     halfTurnSum vs p = -1 - 2 * (count Ts p : Int) ∧ isInsideRot vs p = true := by
   have hs : halfTurnSum vs p = -1 - 2 * (count Ts p : Int) := by
-    rw [winding_additive p hchain, List.map_cons, List.sum_cons,
+    rw [winding2_additive p hchain, List.map_cons, List.sum_cons,
       triangle_on_edge_sum_neg hpos0 hcol hin]
     have : (Ts.map fun t => halfTurn p t.a t.b + halfTurn p t.b t.c + halfTurn p t.c t.a).sum =
         -2 * (count Ts p : Int) := by
